@@ -260,7 +260,14 @@ func c14MsgRate(rate, burstN, n int) (string, string, bool) {
 }
 
 func c14Lifetime(timeout time.Duration) (string, string, bool) {
-	srv, err := c14Start(append([]string{"--session-timeout", timeout.String()}, c14NoRate...)...)
+	flagv := timeout.String()
+	if timeout == 0 {
+		flagv = "0"
+	}
+	if timeout < 0 { // a long lifetime: only the host-leaves part can be observed
+		flagv, timeout = "1h", 0
+	}
+	srv, err := c14Start(append([]string{"--session-timeout", flagv}, c14NoRate...)...)
 	if err != nil {
 		return "server-start", err.Error(), false
 	}
@@ -272,8 +279,18 @@ func c14Lifetime(timeout time.Duration) (string, string, bool) {
 		return "code-refused-while-live", fmt.Sprintf("join right after creation refused with %d (lifetime %s)", st, timeout), true
 	}
 	early.close()
-	time.Sleep(timeout + 500*time.Millisecond - time.Since(si.Created))
-	if late, st, err := srv.dial(si.Code, "late", "receiver"); err == nil {
+	if timeout == 0 {
+		// no lifetime configured: the code keeps admitting (until the host leaves, part b)
+		time.Sleep(700 * time.Millisecond)
+		later, st, err := srv.dial(si.Code, "later", "receiver")
+		if err != nil {
+			return "code-refused-while-live", fmt.Sprintf("session lifetime disabled, join %s after creation refused with %d", time.Since(si.Created), st), true
+		}
+		later.close()
+	} else if late, st, err := func() (*client, int, error) {
+		time.Sleep(timeout + 500*time.Millisecond - time.Since(si.Created))
+		return srv.dial(si.Code, "late", "receiver")
+	}(); err == nil {
 		late.close()
 		return "code-admits-after-expiry", fmt.Sprintf("join %s after creation admitted (lifetime %s)", time.Since(si.Created), timeout), true
 	} else if st != 404 {
@@ -338,6 +355,8 @@ func TestVerifC14Server(t *testing.T) {
 		probe{"ws-msgs-per-sec=20 burst=5 n=80", func() (string, string, bool) { return c14MsgRate(20, 5, 80) }},
 		probe{"ws-msgs-per-sec=0 n=200", func() (string, string, bool) { return c14MsgRate(0, 5, 200) }},
 		probe{"session-timeout=1.2s lifetime", func() (string, string, bool) { return c14Lifetime(1200 * time.Millisecond) }},
+		probe{"session-timeout=0 lifetime", func() (string, string, bool) { return c14Lifetime(0) }},
+		probe{"session-timeout=1h lifetime (host leaves)", func() (string, string, bool) { return c14Lifetime(-1) }},
 	)
 	var wg sync.WaitGroup
 	var mu sync.Mutex
